@@ -24,6 +24,26 @@ def uf_apps(exprs, names=('sqrt', 'exp', 'log', 'acos', 'sin', 'cos')):
             out[x.get_id()] = x
     return list(out.values())
 
+def purify_div(constraints):
+    """x / y with a non-constant divisor becomes a fresh q with q*y == x (measured: z3 decides the rounding queries in
+    milliseconds in this form and times out on the division form).  Only sound where y != 0, which the callers' path
+    conditions guarantee (box edges > 0); y != 0 is added so that the rewriting can only lose models, never add them."""
+    seen = {}
+    for c in constraints:
+        if z3.is_expr(c): walk(c, seen)
+    divs = [x for x in seen.values() if z3.is_app(x) and x.decl().kind() == z3.Z3_OP_DIV and not z3.is_rational_value(x.arg(1))]
+    if not divs: return list(constraints)
+    divs.sort(key=lambda x: len(walk(x)))
+    subs = []; ax = []
+    for i, x in enumerate(divs):
+        q = z3.Real('div!q%d' % i)
+        num = z3.substitute(x.arg(0), *subs) if subs else x.arg(0); den = z3.substitute(x.arg(1), *subs) if subs else x.arg(1)
+        ax += [q * den == num, den != 0]
+        subs.append((x, q))
+    out = [z3.substitute(c, *reversed(subs)) for c in constraints]
+    out = [z3.substitute(c, *reversed(subs)) for c in out]
+    return out + ax
+
 def purify(constraints):
     """Replace every math-UF application by a fresh real constant plus its defining constraints, so that the
     query is pure (non)linear arithmetic and reaches nlsat instead of the UF+NRA combination."""
@@ -117,11 +137,21 @@ def parallel_check(jobs, timeout_s=60, workers=None):
     """jobs: list of (key, constraints). Returns {key: (status, dt, model_dict)}."""
     return run_queries([(k, to_smt2(c)) for k, c in jobs], timeout_s, workers)
 
-def prove(ck, name, assumptions, negated_goal, timeout_s=60, probe=None, detail=None, expect_sat_ok=False):
+def prove(ck, name, assumptions, negated_goal, timeout_s=60, probe=None, detail=None, expect_sat_ok=False, divform=False):
     """Discharge one obligation. Returns (status, model).  probe: constraint list for the triviality
     probe (the same negated goal with the code-derived facts removed); sat there => non-trivial."""
     cons = purify(list(assumptions) + (list(negated_goal) if isinstance(negated_goal, (list, tuple)) else [negated_goal]))
+    if divform: cons = purify_div(cons)
     r, dt, mdl = check(cons, timeout_s)
+    if r == 'unsat' and assumptions and os.environ.get('VERIF_NO_VACUITY') is None:
+        # vacuity guard: the assumptions alone must be satisfiable (an unsat core inside them would make every goal 'hold')
+        a_only = purify(list(assumptions))
+        if divform: a_only = purify_div(a_only)
+        vr, vdt, _ = check(a_only, min(timeout_s, 15))
+        if vr == 'unsat':
+            ck.obligation(name, 'unknown', dt, None, {'vacuous': 'the assumptions of this obligation are contradictory'})
+            if VERBOSE: print('  [VACUOUS] %s' % name, flush=True)
+            return 'unknown', None
     nontriv = None
     if probe is not None:
         pr, pdt, _ = check(probe, min(timeout_s, 20))
